@@ -11,7 +11,7 @@ EXPLANATION = ('Decoder tables extracted from MIR and compared with the specific
                'the property keys and wire-type helper each inbound packet accepts (with duplicate rejection inside every '
                'optional helper), per-type dispatch with fixed first bytes, the size check that dominates buffering, and a '
                'panic-site inventory of every body reachable from Decoder::decode_bytes with each site discharged by a '
-               'dominating length/variant guard or a listed state invariant that has its own maintenance rule. Added in round 2: the wire layout of every inbound packet decoder as a reaching-definition chain over the body cursor (field order, optional fields, property/payload split, flag bits), property key vs destination field agreement, and the value flow of the maximum packet size in force from the CONNECT options to the decoder comparison.')
+               'dominating length/variant guard or a listed state invariant that has its own maintenance rule. Added in round 2: the wire layout of every inbound packet decoder as a reaching-definition chain over the body cursor (field order, optional fields, property/payload split, flag bits), property key vs destination field agreement, and the value flow of the maximum packet size in force from the CONNECT options to the decoder comparison. Added after the mutation sweeps: decoder state transitions as must-effects, exact bounds of the fixed-width and length-prefixed primitives, outcome tables of every inbound decoder (which remaining-length conditions accept / reject, when a payload is stored), continuation-bit polarity of the variable byte integer decoder.')
 ASSUMPTIONS = ['not decided: value faithfulness for arbitrary byte content and invariance under every chunking of the stream '
                '(only the structural conditions: state-field write sets, size check placement, bounds guards)']
 
